@@ -155,6 +155,16 @@ PROPS["C07"] = {
     "assumptions": ["bit-parallel search treated as an uninterpreted predicate of its window"],
 }
 
+PROPS["C08"] = {
+    "level": "other",
+    "text": "Proved on AdapterIndex._match_to_one_length / _match_to_multiple_lengths (both anchor sides): a reported match has its "
+            "coordinates inside the read, removes exactly an affix of an indexed length, and carries the adapter, errors and score of "
+            "the index entry.  Bounded: that the index holds exactly the neighbourhood of each adapter with exact error counts, the "
+            "ambiguity rule, and agreement of indexed and one-by-one search.",
+    "note": "Trusted: the dictionary as an abstract map; hamming_sphere/edit_environment and _make_index only exercised natively.",
+    "assumptions": ["reads without N for the proved part (the N fallback re-aligns with the adapter's own match_to)"],
+}
+
 _PENDING = "check not built yet in this revision (see DESIGN.md section 7 for the build order)"
 NOT_APPLICABLE = {
     "C12": "quantifies over fault sequences, crash points and schedules and contains a liveness clause; malformed-input detection "
